@@ -274,6 +274,22 @@ where
                 allow.contains(&code) || set.contains(&cs_of(m))
             }))
         }
+        "env" => {
+            // an EnvFilter: static directives `target=level` (+ default level) and span directives `target[s]=level`
+            // (every pool span is named `s`): stateful - it learns the span callsites in callsite_enabled
+            let lvl = |n: u64| ["off", "error", "warn", "info", "debug", "trace"][n.min(5) as usize];
+            let mut parts: Vec<String> = Vec::new();
+            if let Some(d) = v["d"].as_u64() {
+                parts.push(lvl(d).to_string());
+            }
+            for e in v["st"].as_array().unwrap() {
+                parts.push(format!("{}={}", TARGETS[e[0].as_u64().unwrap() as usize], lvl(e[1].as_u64().unwrap())));
+            }
+            for e in v["dy"].as_array().unwrap() {
+                parts.push(format!("{}[s]={}", TARGETS[e[0].as_u64().unwrap() as usize], lvl(e[1].as_u64().unwrap())));
+            }
+            Box::new(tracing_subscriber::filter::EnvFilter::new(parts.join(",")))
+        }
         "all" => Box::new(None::<BF<C>>),
         "and" => Box::new(build_filter::<C>(&v["a"]).and(build_filter::<C>(&v["b"]))),
         "or" => Box::new(build_filter::<C>(&v["a"]).or(build_filter::<C>(&v["b"]))),
